@@ -315,3 +315,175 @@ rc5_inst!(u128, U12, U17, m=w128, u=16, t=26, c=2, b=17, unw=80;
 // @ob name=b255_8_12_255_api_dec props=C10,C20 kind=contract fn=rc5::RC5::new,rc5::RC5::decrypt_block timeout=300 note="RC5-8/12/255"
 rc5_inst!(u8, U12, U255, m=w8, u=1, t=26, c=255, b=255, unw=767;
     b255_8_12_255_ks, b255_8_12_255_enc, b255_8_12_255_dec, b255_8_12_255_rt1, b255_8_12_255_rt2, b255_8_12_255_api_enc, b255_8_12_255_api_dec);
+
+// ---------------------------------------------------------------- key length 0 (C10): accepted by the type, RC5 prescribes c = max(1, ceil(8b/w)) = 1
+// KNOWN TO BE REFUTED on the pinned tree: KeyAsWordsSize<u32, U0> = 0, so `mix_in` indexes an empty array (and would
+// compute `% 0`): `RC5::<u32, U12, U0>::new(&Array::default())` panics for the (only) key of length 0.
+// @ob name=f_b0_32_12_0_api props=C10,C11,C20 kind=contract fn=rc5::RC5::new,rc5::RC5::substitute_key,rc5::RC5::mix_in,rc5::RC5::encrypt_block,rc5::RC5::decrypt_block timeout=300 note="RC5-32/12/0"
+#[kani::proof]
+#[kani::unwind(80)]
+fn f_b0_32_12_0_api() {
+    let key: [u8; 0] = [];
+    let b: [u8; 8] = kani::any();
+    let c = <RC5<u32, U12, U0> as KeyInit>::new(&Array(key));
+    let s = r::w32::key_expansion::<26, 1>(&key);
+    let mut blk = Array(b);
+    cipher::BlockCipherEncrypt::encrypt_block(&c, &mut blk);
+    let (x, y) = r::w32::encrypt_words::<26>(&s, r::w32::word_from_le(&b[..4]), r::w32::word_from_le(&b[4..]));
+    assert!(r::w32::word_from_le(&blk.0[..4]) == x && r::w32::word_from_le(&blk.0[4..]) == y);
+    cipher::BlockCipherDecrypt::decrypt_block(&c, &mut blk);
+    assert!(eq_n(&blk.0, &b));
+    assert!(<RC5<u32, U12, U0> as KeyInit>::new_from_slice(&key[..]).is_ok());
+}
+
+// ---------------------------------------------------------------- C19 Debug / AlgorithmName
+// n_<p>_debug: Debug text is identical for all expanded-key tables and starts with "RC5"
+// n_<p>_params: the algorithm name (and the Debug text) identify word size, rounds AND key length: they contain "w/r/b".
+//   KNOWN TO BE REFUTED on the pinned tree: both impls print `R` twice and never `B` ("RC5 - u32/12/12" for RC5<u32, U12, U16>).
+macro_rules! rc5_names {
+    ($W:ty, $R:ty, $B:ty, $t:expr, $params:expr; $dbg:ident, $par:ident) => {
+        #[kani::proof]
+        #[kani::unwind(100)]
+        fn $dbg() {
+            let a = any_rc5!($W, $R, $B, $t);
+            let b = any_rc5!($W, $R, $B, $t);
+            let (ta, tb) = (debug_text(&a), debug_text(&b));
+            assert!(ta.same(&tb));
+            assert!(ta.names("RC5"));
+            assert!(alg_name_text::<RC5<$W, $R, $B>>().names("RC5"));
+        }
+        #[kani::proof]
+        #[kani::unwind(100)]
+        fn $par() {
+            let a = any_rc5!($W, $R, $B, $t);
+            assert!(contains(&alg_name_text::<RC5<$W, $R, $B>>(), $params), "AlgorithmName does not identify w/r/b");
+            assert!(contains(&debug_text(&a), $params), "Debug does not identify w/r/b");
+        }
+    };
+}
+// @ob name=n_32_12_16_debug props=C19 kind=contract fn=rc5::RC5::fmt,rc5::RC5::write_alg_name timeout=300
+// @ob name=n_32_12_16_params props=C19 kind=contract fn=rc5::RC5::fmt,rc5::RC5::write_alg_name timeout=300 note="expects 32/12/16"
+rc5_names!(u32, U12, U16, 26, "32/12/16"; n_32_12_16_debug, n_32_12_16_params);
+// @ob name=n_8_12_4_debug props=C19 kind=contract fn=rc5::RC5::fmt,rc5::RC5::write_alg_name timeout=300
+// @ob name=n_8_12_4_params props=C19 kind=contract fn=rc5::RC5::fmt,rc5::RC5::write_alg_name timeout=300 note="expects 8/12/4"
+rc5_names!(u8, U12, U4, 26, "8/12/4"; n_8_12_4_debug, n_8_12_4_params);
+// @ob name=n_128_28_32_debug props=C19 kind=contract fn=rc5::RC5::fmt,rc5::RC5::write_alg_name timeout=300
+// @ob name=n_128_28_32_params props=C19 kind=contract fn=rc5::RC5::fmt,rc5::RC5::write_alg_name timeout=300 note="expects 128/28/32"
+rc5_names!(u128, U28, U32, 58, "128/28/32"; n_128_28_32_debug, n_128_28_32_params);
+// (a type with r == b names itself correctly even on the pinned tree: the control)
+// @ob name=n_64_24_24_debug props=C19 kind=contract fn=rc5::RC5::fmt,rc5::RC5::write_alg_name timeout=300
+// @ob name=n_64_24_24_params props=C19 kind=contract fn=rc5::RC5::fmt,rc5::RC5::write_alg_name timeout=300 note="expects 64/24/24"
+rc5_names!(u64, U24, U24, 50, "64/24/24"; n_64_24_24_debug, n_64_24_24_params);
+
+// ---------------------------------------------------------------- C11 / C12 / C13 / C16 / C04
+macro_rules! rc5_api {
+    ($W:ty, $R:ty, $B:ty, u=$u:expr, t=$t:expr, b=$b:expr, unw=$unw:expr; $keylen:ident, $same:ident, $mb:ident, $z:ident) => {
+        #[kani::proof]
+        #[kani::unwind($unw)]
+        fn $keylen() {
+            let buf: [u8; 301] = kani::any();
+            let n: usize = kani::any();
+            kani::assume(n <= 300);
+            kani::cover!(n == $b);
+            kani::cover!(n == 300);
+            kani::cover!(n == 0);
+            let r = <RC5<$W, $R, $B> as KeyInit>::new_from_slice(&buf[..n]);
+            assert!(r.is_ok() == (n == $b));
+            // the typenum arithmetic of the instantiation
+            assert!(<ExpandedKeyTableSize<$R> as Unsigned>::USIZE == $t);
+            assert!(<KeyAsWordsSize<$W, $B> as Unsigned>::USIZE == r::key_words(8 * $u, $b) || $b == 0);
+            assert!(<BlockSize<$W> as Unsigned>::USIZE == 2 * $u);
+        }
+        #[kani::proof]
+        #[kani::unwind($unw)]
+        fn $same() {
+            let key: [u8; $b] = kani::any();
+            let a = <RC5<$W, $R, $B> as KeyInit>::new(&Array(key));
+            let b = <RC5<$W, $R, $B> as KeyInit>::new_from_slice(&key[..]).unwrap();
+            let c = a.clone();
+            let mut i = 0;
+            while i < $t {
+                assert!(a.key_table.0[i] == b.key_table.0[i] && a.key_table.0[i] == c.key_table.0[i]);
+                i += 1;
+            }
+            // C13: never weak; the checked constructor returns the same cipher
+            assert!(<RC5<$W, $R, $B> as KeyInit>::weak_key_test(&Array(key)).is_ok());
+            match <RC5<$W, $R, $B> as KeyInit>::new_checked(&Array(key)) {
+                Ok(d) => {
+                    let mut i = 0;
+                    while i < $t {
+                        assert!(a.key_table.0[i] == d.key_table.0[i]);
+                        i += 1;
+                    }
+                }
+                Err(_) => assert!(false),
+            }
+        }
+        #[kani::proof]
+        #[kani::unwind($unw)]
+        fn $mb() {
+            let c = any_rc5!($W, $R, $B, $t);
+            let before = c.key_table.0;
+            mb_body!(c, 2 * $u, 0);
+            mb_body!(c, 2 * $u, 1);
+            mb_body!(c, 2 * $u, 3);
+            let mut i = 0;
+            while i < $t {
+                assert!(before[i] == c.key_table.0[i]);
+                i += 1;
+            }
+        }
+        #[kani::proof]
+        #[kani::unwind(1000)]
+        fn $z() {
+            let mut m = core::mem::ManuallyDrop::new(any_rc5!($W, $R, $B, $t).clone());
+            let p: *const RC5<$W, $R, $B> = &*m;
+            unsafe { core::mem::ManuallyDrop::drop(&mut m); }
+            assert!(unsafe { all_bytes_zero(p) });
+        }
+    };
+}
+macro_rules! mb_body {
+    ($c:expr, $bb:expr, $n:expr) => {{
+        let d = &$c;
+        let inp: [[u8; $bb]; $n] = kani::any();
+        let mut single = [[0u8; $bb]; $n];
+        let mut i = 0;
+        while i < $n {
+            let mut b = Array(inp[i]);
+            cipher::BlockCipherEncrypt::encrypt_block(d, &mut b);
+            single[i] = b.0;
+            i += 1;
+        }
+        let mut blocks = [Array([0u8; $bb]); $n];
+        let mut i = 0;
+        while i < $n { blocks[i] = Array(inp[i]); i += 1; }
+        cipher::BlockCipherEncrypt::encrypt_blocks(d, &mut blocks);
+        let mut i = 0;
+        while i < $n { assert!(eq_n(&blocks[i].0, &single[i])); i += 1; }
+        let mut src = [Array([0u8; $bb]); $n];
+        let mut i = 0;
+        while i < $n { src[i] = Array(inp[i]); i += 1; }
+        let g: [u8; $bb] = kani::any();
+        let mut dst = [Array(g); $n + 2];
+        cipher::BlockCipherEncrypt::encrypt_blocks_b2b(d, &src, &mut dst[1..$n + 1]).unwrap();
+        assert!(eq_n(&dst[0].0, &g) && eq_n(&dst[$n + 1].0, &g));
+        let mut i = 0;
+        while i < $n { assert!(eq_n(&dst[i + 1].0, &single[i]) && eq_n(&src[i].0, &inp[i])); i += 1; }
+    }};
+}
+// @ob name=k_32_12_16_keylen props=C11 kind=bounded bound="slice length <= 300" fn=rc5::RC5::new_from_slice timeout=300 note="RC5-32/12/16"
+// @ob name=k_32_12_16_same props=C11,C12,C13 kind=contract fn=rc5::RC5::new_from_slice,rc5::RC5::new,rc5::RC5::clone,rc5::RC5::weak_key_test,rc5::RC5::new_checked timeout=300 note="RC5-32/12/16"
+// @ob name=m_32_12_16_blocks props=C04,C15 kind=bounded bound="n in {0, 1, 3} blocks (ParBlocksSize = 1)" fn=rc5::RC5::encrypt_with_backend,rc5::RC5::encrypt_block timeout=600 note="RC5-32/12/16"
+// @ob name=z_32_12_16 props=C16 cfg=zeroize kind=contract fn=rc5::RC5::drop,rc5::RC5::clone timeout=300 note="RC5-32/12/16"
+rc5_api!(u32, U12, U16, u=4, t=26, b=16, unw=80; k_32_12_16_keylen, k_32_12_16_same, m_32_12_16_blocks, z_32_12_16);
+// @ob name=k_8_12_4_keylen props=C11 kind=bounded bound="slice length <= 300" fn=rc5::RC5::new_from_slice timeout=300 note="RC5-8/12/4"
+// @ob name=k_8_12_4_same props=C11,C12,C13 kind=contract fn=rc5::RC5::new_from_slice,rc5::RC5::new,rc5::RC5::clone,rc5::RC5::weak_key_test,rc5::RC5::new_checked timeout=300 note="RC5-8/12/4"
+// @ob name=m_8_12_4_blocks props=C04,C15 kind=bounded bound="n in {0, 1, 3} blocks (ParBlocksSize = 1)" fn=rc5::RC5::encrypt_with_backend,rc5::RC5::encrypt_block timeout=600 note="RC5-8/12/4"
+// @ob name=z_8_12_4 props=C16 cfg=zeroize kind=contract fn=rc5::RC5::drop,rc5::RC5::clone timeout=300 note="RC5-8/12/4"
+rc5_api!(u8, U12, U4, u=1, t=26, b=4, unw=80; k_8_12_4_keylen, k_8_12_4_same, m_8_12_4_blocks, z_8_12_4);
+// @ob name=k_128_28_32_keylen props=C11 kind=bounded bound="slice length <= 300" fn=rc5::RC5::new_from_slice timeout=300 note="RC5-128/28/32"
+// @ob name=k_128_28_32_same props=C11,C12,C13 kind=contract fn=rc5::RC5::new_from_slice,rc5::RC5::new,rc5::RC5::clone,rc5::RC5::weak_key_test,rc5::RC5::new_checked timeout=300 note="RC5-128/28/32"
+// @ob name=m_128_28_32_blocks props=C04,C15 kind=bounded bound="n in {0, 1, 3} blocks (ParBlocksSize = 1)" fn=rc5::RC5::encrypt_with_backend,rc5::RC5::encrypt_block timeout=600 note="RC5-128/28/32"
+// @ob name=z_128_28_32 props=C16 cfg=zeroize kind=contract fn=rc5::RC5::drop,rc5::RC5::clone timeout=300 note="RC5-128/28/32"
+rc5_api!(u128, U28, U32, u=16, t=58, b=32, unw=180; k_128_28_32_keylen, k_128_28_32_same, m_128_28_32_blocks, z_128_28_32);
